@@ -341,12 +341,13 @@ AREAS = [
              text='Inductive xa_ev := XaCleared | XaSet (type : Z) | XaNotify (type : Z) | XaApply.\n'),
         dict(name='checkable_is_acknowledged', func='Checkable::IsAcknowledged', file='lib/icinga/checkable.cpp', props=['C06', 'C02'],
              inputs=[('now', 'Z'), ('ack_raw', 'Z'), ('ack_expiry', 'Z')], ret='bool',
-             bind={'const_cast<Checkable *>(this)->GetAcknowledgement()': ('fst (src_checkable_get_acknowledgement now ack_raw ack_expiry)', 'Z')}),
+             bind={'const_cast<Checkable *>(this)->GetAcknowledgement()': ('fst (src_checkable_get_acknowledgement now ack_raw ack_expiry)', 'Z'),
+                   'GetAcknowledgementRaw()': Zb('ack_raw'), 'GetAcknowledgementExpiry()': Zb('ack_expiry'), 'Utility::GetTime()': Zb('now')}),
         dict(name='checkable_clear_acknowledgement', func='Checkable::ClearAcknowledgement', file='lib/icinga/checkable.cpp', props=['C06'],
              inputs=[('ack_raw', 'Z'), ('ack_expiry', 'Z'), ('change_time', 'Z'), ('last_change0', 'Z')], ret='void', dummy='(0, 0, 0, nil)',
              params={'changeTime': Zb('change_time')},
              state=[('$raw', 'ack_raw', 'Z'), ('$exp', 'ack_expiry', 'Z'), ('$lastchange', 'last_change0', 'Z'), ('$events', '(@nil xa_ev)', 'list xa_ev')],
-             getters={'GetAcknowledgementRaw()': '$raw'},
+             getters={'GetAcknowledgementRaw()': '$raw', 'GetAcknowledgementExpiry()': '$exp'},
              setters={'SetAcknowledgementRaw': '$raw', 'SetAcknowledgementExpiry': '$exp', 'SetAcknowledgementLastChange': '$lastchange'},
              emits={'OnAcknowledgementCleared': ('$events', 'XaCleared', [None, None, None, None])}),
         dict(name='checkable_acknowledge_problem', func='Checkable::AcknowledgeProblem', file='lib/icinga/checkable.cpp', props=['C06'],
@@ -487,12 +488,15 @@ def run(rd, emit, log, enum_values, ti_default):
     emit('Facts_fn_enums.v', '(* enum constants used by the translated functions that Facts_enums.v does not define *)\n' + extra)
 
     report, recognised = [], {}
+    glue_defs = {}          # name defined by a glue text -> glue id (a translation that uses it depends on that glue)
     for area in AREAS:
         body = ''.join('Require Import %s.\n' % r for r in area['requires'] + ['Icv.Facts.Facts_fn_enums']) + 'From Coq Require Import Bool.\nLocal Open Scope bool_scope.\nLocal Open Scope Z_scope.\n\n'
         for t in area['items']:
             if 'glue' in t:
                 ok = all(recognised.get(d, False) for d in t['deps'])
                 recognised[t['glue']] = ok
+                for nm in re.findall(r'^(?:Definition|Fixpoint|Inductive)\s+(\w+)', t['text'], re.M):
+                    glue_defs[nm] = t['glue']
                 body += '(* glue (hand-written in tools/facts_fn.py): %s *)\nDefinition src_%s_recognised : bool := %s.\n%s\n' % (
                     t['doc'], t['glue'], 'true' if ok else 'false', t['text'])
                 report.append(dict(name=t['glue'], kind='glue', recognised=ok, props=t['props']))
@@ -505,6 +509,10 @@ def run(rd, emit, log, enum_values, ti_default):
             for d in sorted(set(re.findall(r'\bsrc_(\w+)', res.get('term', '')))):
                 if d != t['name'] and not recognised.get(d, False) and res['ok']:
                     res['ok'] = False; res['reason'] = 'calls src_%s, which is not recognised' % d
+            for nm in sorted(set(re.findall(r'\b[A-Za-z_]\w*\b', res.get('term', '')))):
+                g = glue_defs.get(nm)
+                if g and not recognised.get(g, False) and res['ok']:
+                    res['ok'] = False; res['reason'] = 'uses %s (glue %s), which depends on an unrecognised function' % (nm, g)
             recognised[t['name']] = res['ok']
             if not res['ok']:
                 log.append('xlate: %s not recognised: %s' % (t['func'], res['reason']))
